@@ -179,7 +179,7 @@ def gen_calls(rng, v):
             elif kk < 0.5:
                 calls.append(("sanitize(value=%s, preset='uint')" % name, (lambda t, text=text: None if t in san.uint_admissible(text) else "sanitize uint returned %r, contract admits %r" % (t, sorted(san.uint_admissible(text)))), None))
             else:
-                sep = rng.choice([".", "-", "_", "--", "-.", "::"])
+                sep = rng.choice([".", "-", "_", "--", "-.", "::", "---", "...", "_-_"])
                 lower = rng.choice([True, False])
                 kz = rng.choice([True, False])
                 ml = rng.choice([None, 0, 1, 3, 5, 12])
@@ -200,7 +200,7 @@ def gen_calls(rng, v):
                         kz2 = rng.choice([True, False])
                         args = "keep_zeros=%s" % ("true" if kz2 else "false")
                     else:
-                        sep2 = rng.choice(["-", "_", ".", "--", "~~"])
+                        sep2 = rng.choice(["-", "_", ".", "--", "~~", "---", "____"])
                         args = "separator='%s'" % sep2
                     sep, lower, kz, ml = sep2, lower2, kz2, ml2
                     if which != "sep":
